@@ -1,7 +1,7 @@
 (* C15 - trigonometric gateways.  Pinned theorems only. *)
 From Coq Require Import ZArith List Bool Reals Lra.
 From Flocq Require Import Core BinarySingleNaN.
-Require Import GV.FloatBase GV.FloatLemmas GV.AngleM GV.AngleProofs GV.GeonumM GV.GeonumProofs GV.TraitsM GV.NewProofs GV.CtorProofs GV.PiBounds GV.TrigProofs.
+Require Import GV.FloatBase GV.FloatLemmas GV.AngleM GV.AngleProofs GV.GeonumM GV.GeonumProofs GV.TraitsM GV.NewProofs GV.CtorProofs GV.PiBounds GV.TrigProofs GV.DotValue GV.DistValue GV.DirProofs GV.SymProofs.
 Open Scope R_scope.
 
 (* cos: |value| at blade 0 / 2; sin: |value| at blade 1 / 3; remainder exactly 0; for EVERY libm *)
@@ -47,3 +47,10 @@ Print Assumptions C15_sin_value.
 Theorem C15_acc_inhabited : cos_acc ideal_libm (/ 4503599627370496) /\ sin_acc ideal_libm (/ 4503599627370496).
 Proof. exact acc_hyps_inhabited. Qed.
 Print Assumptions C15_acc_inhabited.
+
+(* cos^2 + sin^2 = 1 within 5(u + 2.5e-15) for the values carried by Geonum::cos and Geonum::sin *)
+Theorem C15_pythagoras : forall (L : libm) (u : R) a, cos_acc L u -> sin_acc L u -> u <= / 1000 -> canonp (rem a) ->
+  let c := cosF L (grade_angle a) in let s := sinF L (grade_angle a) in
+  Rabs (R_ c * R_ c + R_ s * R_ s - 1) <= 5 * (u + 25 / 10000000000000000).
+Proof. exact pythagoras. Qed.
+Print Assumptions C15_pythagoras.
